@@ -474,7 +474,9 @@ def stock_cases(draw):
                 seed=draw(st.integers(0, 10**6)), steady=draw(st.sampled_from([False, False, True])),
                 # current that varies with depth (factor per s-level, particles at different depths) and a share of
                 # particles that are switched off (they must stay; the others must not notice them)
-                shear=draw(st.booleans()), inactive=draw(st.sampled_from([0.0, 0.0, 0.25])))
+                shear=draw(st.booleans()), inactive=draw(st.sampled_from([0.0, 0.0, 0.25])),
+                # the frames may be spread over several files, and a scalar field may be read along with the currents
+                split=draw(st.sampled_from([0, 0, 1, 2])), scalar=draw(st.booleans()))
 
 
 def stock_oracle(case) -> core.CaseResult:
@@ -544,19 +546,37 @@ def stock_oracle(case) -> core.CaseResult:
         gpart[p_] = aa * glev[max(kk - 1, 0)] + (1 - aa) * glev[kk]
     with e2e.workdir() as d:
         order = np.argsort(np.array(ftimes))
-        roms.write_roms(d / "f.nc", G, [ftimes[i] for i in order], U[order], V[order], storage="f8")
+        nfr_ = len(order)
+        # partition of the (time-ordered) frames into files: one file, one frame per file, or two files
+        if case.get("split") == 1:
+            part = [1] * nfr_
+        elif case.get("split") == 2 and nfr_ >= 2:
+            part = [nfr_ // 2, nfr_ - nfr_ // 2]
+        else:
+            part = [nfr_]
+        extra = {"temp": rng.uniform(0, 20, (nfr_, NL, jm, im))} if case.get("scalar") else None
+        fname, ffiles = scen.write_forcing(d, G, [ftimes[i] for i in order], U[order], V[order], partition=part,
+                                           extra=extra, stem="f")
+        if len(part) > 1:
+            res.cls("frames_in_several_files")
+        if extra:
+            res.cls("scalar_field_read_along")
         modules = {}
         try:
-            modules["state"] = init_module("state", {}, modules)
+            sconf = {"instance_variables": {"temp": "float"}, "default_values": {"temp": 0.0}} if extra else {}
+            modules["state"] = init_module("state", sconf, modules)
             tconf = {"start": e2e.iso(T + scen.S(sgn * begin * dt)), "stop": e2e.iso(ftimes[-1]), "dt": dt}
             if case["reverse"]:
                 tconf["time_reversal"] = True
             modules["time"] = init_module("time", tconf, modules)
-            gconf = {"filename": str(d / "f.nc")}
+            gconf = {"filename": str(ffiles[0])}
             if case["sub"]:
                 gconf["subgrid"] = list(case["sub"])
             modules["grid"] = init_module("grid", gconf, modules)
-            modules["forcing"] = init_module("forcing", {"filename": str(d / "f.nc")}, modules)
+            fconf = {"filename": fname}
+            if extra:
+                fconf["extra_forcing"] = ["temp"]
+            modules["forcing"] = init_module("forcing", fconf, modules)
             modules["tracker"] = init_module("tracker", {"advection": case["scheme"]}, modules)
             state, timer, force, tr = modules["state"], modules["time"], modules["forcing"], modules["tracker"]
             state.append(X=X.copy(), Y=Y.copy(), Z=Z.copy())
